@@ -180,7 +180,9 @@ pub fn check_case(entries: &[En], stream: bool, base: &Path, id: u64, st: &mut S
     check_case_layout(entries, stream, base, id, st, order, part, 0)
 }
 
-pub const LAYOUTS: [&str; 8] = ["plain", "methods stored/deflate/bzip2/zstd by position", "data descriptors", "100 bytes of prepended data", "DOS made-by with DOS attributes", "forced ZIP64 fields and end records", "central directory in reverse order + gaps", "written by the crate's own ZipWriter"];
+pub const LAYOUTS: [&str; 10] = ["plain", "methods stored/deflate/bzip2/zstd by position", "data descriptors", "100 bytes of prepended data", "DOS made-by with DOS attributes", "forced ZIP64 fields and end records", "central directory in reverse order + gaps", "written by the crate's own ZipWriter", "central directory in reverse order, contiguous (streamable)", "central directory rotated by two records (streamable)"];
+/// added to a layout number: the target directory already holds a longer file (mode 0600) at every file path of the archive
+pub const PREPOPULATED: u8 = 16;
 
 /// How the archive is laid out (index into LAYOUTS); the entries and the expected tree stay the same.
 fn bytes_for(entries: &[En], layout: u8) -> Vec<u8> {
@@ -221,6 +223,8 @@ fn bytes_for(entries: &[En], layout: u8) -> Vec<u8> {
                 e.gap_before = 3;
             }
         }
+        8 => spec.cd_order = Some((0..n).rev().collect()),
+        9 => spec.cd_order = Some((0..n).map(|i| (i + 2) % n.max(1)).collect()),
         7 => {
             use crate::zipapi::*;
             let mut calls = vec![];
@@ -244,9 +248,10 @@ fn bytes_for(entries: &[En], layout: u8) -> Vec<u8> {
 }
 
 pub fn check_case_layout(entries: &[En], stream: bool, base: &Path, id: u64, st: &mut Stats, order: u64, part: &str, layout: u8) {
+    let layout_arg = layout;
     st.evals += 1;
     let ex = if stream { "ZipStreamReader::extract" } else { "ZipArchive::extract" };
-    let case = || json!({"entries": entries.iter().map(|e| json!({"name": crate::util::hex(e.name.as_bytes()), "kind": e.kind, "content": crate::util::hex(&e.content), "perm": e.perm})).collect::<Vec<_>>(), "stream": stream, "layout": layout});
+    let case = || json!({"entries": entries.iter().map(|e| json!({"name": crate::util::hex(e.name.as_bytes()), "kind": e.kind, "content": crate::util::hex(&e.content), "perm": e.perm})).collect::<Vec<_>>(), "stream": stream, "layout": layout_arg});
     let (sb, target) = match Sandbox::new(base, id) {
         Ok(x) => x,
         Err(e) => {
@@ -259,7 +264,23 @@ pub fn check_case_layout(entries: &[En], stream: bool, base: &Path, id: u64, st:
         .iter()
         .map(|e| En { name: e.name.replace("{CANARY}", &sb.root.join("canary").to_string_lossy()), ..e.clone() })
         .collect();
+    let prepopulate = layout & PREPOPULATED != 0;
+    let layout = layout & !PREPOPULATED;
     let bytes = bytes_for(&entries, layout);
+    if prepopulate && consistent(&entries) && entries.iter().all(|e| paths::safe(&e.name)) {
+        // extraction overwrites: what was there before must not show through
+        use std::os::unix::fs::PermissionsExt;
+        for (p, (kind, _, _)) in &model_tree(&entries) {
+            if *kind == 'f' {
+                let full = target.join(p);
+                if let Some(parent) = full.parent() {
+                    let _ = std::fs::create_dir_all(parent);
+                }
+                let _ = std::fs::write(&full, vec![b'X'; 100_000]);
+                let _ = std::fs::set_permissions(&full, std::fs::Permissions::from_mode(0o600));
+            }
+        }
+    }
     // DOS attributes carry no Unix mode: the tree is compared without permission bits
     let entries: Vec<En> = if layout == 4 { entries.into_iter().map(|e| En { perm: None, ..e }).collect() } else { entries };
     st.distinct_hash(fnv(&bytes) ^ stream as u64);
@@ -540,18 +561,20 @@ pub fn run(args: &Args) -> i32 {
     }
     permute(&mut vec![], tree.len(), &mut perms);
     let (tree_r, perms_r) = (&tree, &perms);
-    let s = par_for(perms.len() as u64 * 8 * 2, 4, |t, st| {
+    let s = par_for(perms.len() as u64 * 10 * 2 * 2, 4, |t, st| {
         let stream = t % 2 == 1;
-        let layout = ((t / 2) % 8) as u8;
-        // data descriptors, prepended data and a reordered / gapped directory are not streamable by construction
+        let layout = ((t / 2) % 10) as u8;
+        let prepop = (t / 20) % 2 == 1;
+        // data descriptors, prepended data and a gapped directory are not streamable by construction
         if stream && matches!(layout, 2 | 3 | 6) {
             return;
         }
-        let es: Vec<En> = perms_r[(t / 16) as usize].iter().map(|i| tree_r[*i].clone()).collect();
-        check_case_layout(&es, stream, base_r, (4 << 40) + t, st, (4 << 40) + t, "layouts", layout);
+        let es: Vec<En> = perms_r[(t / 40) as usize].iter().map(|i| tree_r[*i].clone()).collect();
+        check_case_layout(&es, stream, base_r, (4 << 40) + t, st, (4 << 40) + t, "layouts", layout | if prepop { PREPOPULATED } else { 0 });
     });
     ctx.stats.merge(s);
     ctx.bound("layouts", json!(LAYOUTS));
+    ctx.bound("target_directory", json!(["fresh", "already holding a 100 000-byte file (mode 0600) at every file path of the archive"]));
     let _ = std::fs::remove_dir_all(&base);
     ctx.stats.states = ctx.stats.distinct.len() as u64;
     ctx.stats.transitions = ctx.stats.evals;
